@@ -363,7 +363,11 @@ let run_map_case (idx : int) (toks : string list) =
   let o x = match x with Some v -> Printf.sprintf "Some(%s)" (pz v) | None -> "None" in
   let show l = join "," (List.map (fun (k, v) -> Printf.sprintf "%d=%d" k v) (List.sort compare (List.map (fun (k, v) -> (int_of_n k, int_of_z v)) l))) in
   while peek t <> None do
+    let quiet = ref false in
     let op = match next t with
+      (* "p k": a build aborted inside Context::write on key type 1 (the write function panics): the writer was created -- the same
+         state access as a read -- and nothing was written *)
+      | "p" -> let k = num t in quiet := true; MRead (n_of_int 1, n_of_int k)
       | "g" | "G" | "M" | "B" -> let r = num t in let s = num t in MGet (n_of_int r, n_of_int s)   (* get / get_boxed / get_mut / get_boxed_mut: one abstract operation *)
       | "s" | "S" -> let r = num t in let s = num t in let v = num t in MSet (n_of_int r, n_of_int s, z_of_int v)   (* set / set_boxed *)
       | "d" | "D" -> let r = num t in let s = num t in MDefault (n_of_int r, n_of_int s)   (* get_or_set_default / _mut *)
@@ -376,6 +380,7 @@ let run_map_case (idx : int) (toks : string list) =
       | x -> failwith ("bad map op " ^ x) in
     let (ob, st') = mstep !st op in
     st := st';
+    if !quiet then print_endline "u" else
     (match ob with
      | OGet None -> print_endline "g None"
      | OGet (Some l) -> Printf.printf "g Some[%s]\n" (show l)
@@ -443,6 +448,7 @@ let parse_pstate (t : toks) : pstate =
   match next t with
   | "A" -> Absent
   | "F" -> let size = num t in let variant = num t in let m = num t in PFile (fs_content size variant, n_of_int m)
+  | "L" -> let size = num t in let variant = num t in let m = num t in PFile (fs_content size variant, n_of_int m)   (* a symbolic link to a file: the file *)
   | "D" -> let m = num t in let k = num t in let names = List.init k (fun _ -> bytes_of_string (next t)) in PDir (names, n_of_int m)
   | x -> failwith ("bad state " ^ x)
 let rec list_eq a b = match a, b with [] , [] -> true | x :: xs, y :: ys -> int_of_n x = int_of_n y && list_eq xs ys | _ -> false
